@@ -18,7 +18,7 @@ LEVEL = "exploration"
 
 # constructs on which nanoc's evaluator is known to disagree (each is a census cell / witness listed in
 # known_findings) are kept out of the sweep so that the rest keeps being explored
-SWEEP_FEATURES = {"multifile": False, "array_mut": False}
+SWEEP_FEATURES = {"array_mut": False}
 
 SEG_RE = re.compile(r"<<S (\w+)\n(.*?)>>E \1\n", re.S)
 
